@@ -4,5 +4,6 @@ CONSTANTS
   Byz <- B1
   Payloads <- Pay2
   ByzDigests <- D3
+  PrintMod = 1
   AllowOmit = FALSE
 INVARIANTS Agreement Validity Consistency PrintBehaviour
